@@ -33,6 +33,15 @@ CLAIMED = {
             "the returned anomalies re-evaluate to the final score, and (product run) that ignore_point_anomalies "
             "drops exactly the point anomalies",
             "4.C03"),
+    "C16": ("MVCAPA runs with table savings and symbolic penalties plus find_affected_components as a unit: for every "
+            "reported anomaly z3 (LRA) decides that the listed columns are in decreasing saving order, that no excluded "
+            "column beats an included one and that their penalised saving dominates that of every non-empty column "
+            "subset; transform marks exactly those cells",
+            "4.C16"),
+    "C04": ("path enumeration of all seven detectors on table scorers of free reals (each path = one reachable "
+            "control-flow behaviour for the size); on every path the concrete output frame is checked for index, "
+            "dtype, ordering, disjointness, range and the configured length limits",
+            "4.C04"),
 }
 PENDING = {}
 TITLES = {}
